@@ -118,6 +118,9 @@ def gen_leaf(rng, cls=None, n=None, **opt):
               'reserve': dy(rng, 0, 1, 2), 'efficiency': pick(rng, [F(1), F(1), F(1, 2), F(3, 4)]),
               'sustainment': pick(rng, [F(1), F(1), F(1, 2), F(3, 4)]),
               'rate_clip': pick(rng, [None, None, None, (F(1), None), (None, F(2)), (F(3, 2), F(1))])})
+    # some parameters assigned through their setters after construction (the class reads them live)
+    if rng.random() < 0.35:
+      L['post_set'] = sorted(set(['sustainment'] + rng.sample(['efficiency', 'capacity', 'start', 'reserve', 'damage_depth', 'c3'], rng.randint(0, 2))))
   elif cls == 'TDevice':
     L.update({'sustainment': pick(rng, [F(1), F(1, 2), F(3, 4), F(1, 4), F(0)]),
               'efficiency': pick(rng, [F(1), F(2), F(1, 2), F(-2), F(-1, 2)]),
@@ -292,7 +295,11 @@ def build(L):
     kw = {k: float(L[k]) for k in ('c1', 'c2', 'c3', 'capacity', 'damage_depth', 'start', 'reserve', 'efficiency', 'sustainment')}
     if rc is not None:
       kw['rate_clip'] = tuple(None if v is None else float(v) for v in rc)
-    return dk.SDevice(i, n, bounds, cb, **kw)
+    post = {k: kw.pop(k) for k in L.get('post_set', [])}
+    d = dk.SDevice(i, n, bounds, cb, **kw)
+    for k, v in post.items():
+      setattr(d, k, v)
+    return d
   if cls == 'TDevice':
     return dk.TDevice(i, n, bounds, float(L['sustainment']), float(L['efficiency']), float(L['t_init']), float(L['t_optimal']),
                       float(L['t_range']), fl(L['t_external']), c=py_param(L['c']), cbounds=cb)
@@ -415,7 +422,7 @@ def leaf_from_json(J):
   if L.get('cbounds') is not None:
     L['cbounds'] = [(F(a), F(b), int(s), int(e)) for a, b, s, e in L['cbounds']]
   for k, v in list(L.items()):
-    if k in ('n', 'cls', 'id', 'cb_kind', 'bounds', 'cbounds', 'f', 'ucons', 'rate_clip'):
+    if k in ('n', 'cls', 'id', 'cb_kind', 'bounds', 'cbounds', 'f', 'ucons', 'rate_clip', 'post_set'):
       continue
     if isinstance(v, int) and not isinstance(v, bool):
       L[k] = F(v)
